@@ -124,6 +124,8 @@ def plan(seed, tier="quick", index=0):
         "strays": strays,
         "batches": batches,
         "benign_short_writes": rng.random() < 0.3,
+        # legitimate directory names that mean something to glob / fnmatch / regex / shells
+        "dirname": rng.choice(["blocks", "blocks", "blocks", "bitcoin[main]/blocks", "blk*data", "b?ocks", "blocks.d", "my blocks", "[blocks]"]),
         "cap": TIERS.get(tier, TIERS["quick"])["cap"],
     }
     return sc
@@ -151,7 +153,7 @@ class Exec:
         self.magic = MAGICS[sc["network"]]
         self.root = "/simfs-%x" % (sc["seed"] & 0xFFFFFF)
         nested = sc["init"] == "missing-nested"
-        self.datadir = self.root + ("/a/b/blocks" if nested else "/blocks")
+        self.datadir = self.root + ("/a/b/" if nested else "/") + sc.get("dirname", "blocks")
         self.fs = SimFS(self.root, self.log, self.faults, sub_rng(sc["seed"], "fs"), buffer_size=sc["buffer_size"], capacity=None)
         self.fault_plan = fault_plan
         self.capacity = capacity
@@ -166,7 +168,9 @@ class Exec:
         self.S = BF.stream(self.magic, pre_blocks)
         self.bounds = BF.boundaries(self.magic, pre_blocks)
         if sc["init"] not in ("missing", "missing-nested"):
-            fs.dirs.add(self.datadir)
+            parts = self.datadir[len(self.root) + 1 :].split("/")
+            for k in range(1, len(parts) + 1):
+                fs.dirs.add(self.root + "/" + "/".join(parts[:k]))
             if pre_blocks:
                 for name, data in sorted(BF.pack(self.magic, pre_blocks, sc["limit"]).items()):
                     fs.files[self.datadir + "/" + name] = bytearray(data)
@@ -528,6 +532,10 @@ def shrink_candidates(scenario, tape):
         sc = copy.deepcopy(sc0)
         sc["benign_short_writes"] = False
         yield sc, tape
+    if sc0.get("dirname", "blocks") != "blocks":
+        sc = copy.deepcopy(sc0)
+        sc["dirname"] = "blocks"
+        yield sc, tape
     if sc0["buffer_size"] != 8192:
         sc = copy.deepcopy(sc0)
         sc["buffer_size"] = 8192
@@ -535,4 +543,4 @@ def shrink_candidates(scenario, tape):
 
 
 def sample(scenario):
-    return {k: scenario[k] for k in ("stratum", "network", "limit", "buffer_size", "init", "pre_sizes", "strays", "batches", "benign_short_writes")}
+    return {k: scenario.get(k) for k in ("stratum", "network", "limit", "buffer_size", "init", "dirname", "pre_sizes", "strays", "batches", "benign_short_writes")}
